@@ -1379,6 +1379,23 @@ pub(crate) fn verif_lsp_op(op: &str, rest: &str) -> Result<String, String> {
                 r.start.line, r.start.character, r.end.line, r.end.character
             ))
         }
+        // `lsp_range <hexsrc> <start_offset> <end_offset> <line> <end_line>`:
+        // garden_pos_to_lsp_range itself, on a Garden position with
+        // these fields (columns are not read by it).
+        "lsp_range" => {
+            let (_, vfs_path) =
+                Vfs::singleton(std::path::PathBuf::from("/verif/input.gdn"), src.clone());
+            let mut pos = GardenPosition::todo(&vfs_path);
+            pos.start_offset = num(1)?;
+            pos.end_offset = num(2)?;
+            pos.line_number = num(3)?;
+            pos.end_line_number = num(4)?;
+            let r = garden_pos_to_lsp_range(&src, &pos);
+            Ok(format!(
+                "{} {} {} {}",
+                r.start.line, r.start.character, r.end.line, r.end.character
+            ))
+        }
         _ => Err("unknown lsp op".to_owned()),
     }
 }
